@@ -3,6 +3,7 @@ from vf.harness import cache as H
 from vf.props import cache_common as G, cache_oracles as O
 from vf.runner import Result, V
 from vf.sim.kernel import HarnessError
+from vf.sim.world import thread_exc_violations
 
 ID = 'C05'
 LEVEL = 'exploration'
@@ -29,10 +30,10 @@ def strategy(tier):
 
 def run_case(case):
     hist = H.run(case)
-    bad = O.harness_ok(hist)
-    if bad:
-        raise HarnessError('thread exception in cache harness: %s' % bad)
-    viol = O.c05(case, hist)
+    died, harness = thread_exc_violations(hist['thread_excs'], V)
+    if harness:
+        raise HarnessError('thread exception in cache harness: %r' % harness)
+    viol = O.c05(case, hist) + died
     cl = G.structure(case, hist)
     nt = 'cross-loop-wait' in cl or ('take-over' in cl and 'multi-loop-key' in cl)
     if hist['stop'] == 'inconclusive':
